@@ -70,3 +70,17 @@ Proof. exact ContractExamples.f7q_refuted. Qed.
 Check f7q_refuted :
   f7q_class 50 ContractExamples.P7q (GAtom (ContractExamples.C (ContractExamples.K 0))) = true /\
   ~ contract ContractExamples.P7q [] (closed_query (GAtom (ContractExamples.C (ContractExamples.K 0)))) ANone.
+
+Theorem f14b_refuted :
+  f14b_class ContractExamples.P14b ContractExamples.q14b = true /\
+  ~ contract ContractExamples.P14b [] ContractExamples.q14b (AUnique [] [ContractExamples.tB; ContractExamples.tB]) /\
+  check_answer 50 ContractExamples.P14b [] ContractExamples.q14b (AUnique [0%N; 0%N] [TVar 0; TVar 1])
+    [[ContractExamples.tA; ContractExamples.tA]; [ContractExamples.tB; ContractExamples.tA]] = VOk /\
+  f14b_class ContractExamples.P14 ContractExamples.q14 = false.
+Proof. exact ContractExamples.f14b_refuted. Qed.
+Check f14b_refuted :
+  f14b_class ContractExamples.P14b ContractExamples.q14b = true /\
+  ~ contract ContractExamples.P14b [] ContractExamples.q14b (AUnique [] [ContractExamples.tB; ContractExamples.tB]) /\
+  check_answer 50 ContractExamples.P14b [] ContractExamples.q14b (AUnique [0%N; 0%N] [TVar 0; TVar 1])
+    [[ContractExamples.tA; ContractExamples.tA]; [ContractExamples.tB; ContractExamples.tA]] = VOk /\
+  f14b_class ContractExamples.P14 ContractExamples.q14 = false.
